@@ -31,7 +31,7 @@ theorem r_opcore {env : Env} {op eres : Nat} {key : Int} {pr : PerKeyRec} {pn : 
     (hnamed : ∀ (k x : Nat), σ.top[k]? = some x → x < σ.nodes.size)
     (hinst : Inst σ' (env.perKey pr.fam) key σ.nodes.size
       (List.range' (σ.nodes.size + 1) (env.perKey pr.fam).instrs.length) mapped)
-    (hbelow : ExpertH.Below σ' mapped σ.nodes.size) :
+    (hbelow : ExpertH.Below σ' mapped σ.nodes.size ∨ ((V σ').nodeD σ.nodes.size).recomputedAt = -1) :
     OpCore env σ' op { pr with prevNodes := (key, (σ.nodes.size, dep)) :: pn } := by
   have B : BF (fun e => e = eres) σ σ' := LF.bf R.lfx.lf
   obtain ⟨x, e, er, hN, hee, hpk, ⟨d0, rest, hch, hrest, hd0⟩, hent, hout⟩ := C.nodes
@@ -103,7 +103,7 @@ theorem r_opcore {env : Env} {op eres : Nat} {key : Int} {pr : PerKeyRec} {pn : 
         obtain ⟨erX, hx, x1, x2, x3, x4, x5⟩ := R.xnew
         refine ⟨by rw [R.size]; omega, ⟨_, erX, _, R.kind_p, hx, x3, x4⟩,
           ⟨_, _, hmem, hdep.symm, by rw [hdep], hinst, fun c hc => ?_, hrlt⟩,
-          ⟨_, hmem, hdep.symm, hbelow⟩, ⟨_, hmem, hdep.symm, hinst, ?_⟩⟩
+          hbelow.imp (fun hb => ⟨_, hmem, hdep.symm, hb⟩) id, ⟨_, hmem, hdep.symm, hinst, ?_⟩⟩
         · have := List.mem_range'_1.1 hc
           show pr.result + 2 < c
           omega
